@@ -16,13 +16,15 @@ class Names:
         return f"{self.prefix}{self.k}"
 
 
-def gen_prog(rng: random.Random, names: Names, depth: int = 2, fanout: int = 2, p_kids: float = 0.6, p_fail: float = 0.25, max_fail: int = 2, excs: tuple[str, ...] = ("retry", "sim"), work: tuple[float, ...] = (0.0,), allow_group: bool = True) -> dict:
+def gen_prog(rng: random.Random, names: Names, depth: int = 2, fanout: int = 2, p_kids: float = 0.6, p_fail: float = 0.25, max_fail: int = 2, excs: tuple[str, ...] = ("retry", "sim"), work: tuple[float, ...] = (0.0,), allow_group: bool = True, two_tasks: bool = False) -> dict:
     node: dict[str, Any] = {"n": names.next(), "v": rng.randint(0, 9)}
+    if two_tasks and rng.random() < 0.5:
+        node["t"] = 2
     w = rng.choice(work)
     if w:
         node["work"] = w
     if depth > 0 and rng.random() < p_kids:
-        node["kids"] = [gen_prog(rng, names, depth - 1, fanout, p_kids * 0.7, p_fail, max_fail, excs, work, allow_group) for _ in range(rng.randint(1, fanout))]
+        node["kids"] = [gen_prog(rng, names, depth - 1, fanout, p_kids * 0.7, p_fail, max_fail, excs, work, allow_group, two_tasks) for _ in range(rng.randint(1, fanout))]
         if allow_group and len(node["kids"]) > 1 and rng.random() < 0.4:
             node["group"] = True
     if rng.random() < p_fail:
